@@ -21,8 +21,11 @@ pub fn exec_ev(case: &[u64]) -> L {
     let p = e.to_packet();
     let mut o = vec![];
     show_packet(&p, &mut o);
-    let d = decode(case[0], &p);
-    show_decode(&d, &mut o);
+    // the decoder is guarded separately: a panic there leaves the encoder's packet observable (C11) and shows as PANIC for C03
+    match crate::guarded(|| { let mut t = vec![]; let d = decode(case[0], &p); show_decode(&d, &mut t); t }) {
+        Some(t) => o.extend(t),
+        None => o.push(crate::PANIC),
+    }
     o
 }
 
